@@ -22,10 +22,11 @@ THEOREMS = ["TLVerif.Props.C36." + t for t in [
     "accepted_buffers_balanced", "rejects_double_delivery", "rejects_lost_message", "rejects_over_limit",
 ]] + ["TLVerif.Props.C36Window." + t for t in [
     "recv_characterisation", "recv_delivers_prefix", "recv_complete", "recv_prefix_monotone", "send_ack_sound",
+    "send_release_exactly_once",
     "sys_delivered_prefix", "sys_ack_safe", "sys_all_acked_all_delivered",
 ]]
 SOURCES = ["TLVerif.Udp.Monitor", "TLVerif.Udp.MonitorLemmas", "TLVerif.Udp.Driver", "TLVerif.Udp.Window",
-           "TLVerif.Udp.WindowLemmas", "TLVerif.Udp.SysLemmas"]
+           "TLVerif.Udp.WindowLemmas", "TLVerif.Udp.SysLemmas", "TLVerif.Udp.ReleaseLemmas"]
 
 # ---------------------------------------------------------------------------------------------
 # command strings (the simulator's input language: see FuzzDyukov)
@@ -132,7 +133,7 @@ def parse_commands(b):
     return cmds
 
 
-def sim_line(flags, cmds, steps=300):
+def sim_line(flags, cmds, steps=3000):
     return "udp.sim %d %d %s" % (flags, steps, cmds.hex() if cmds else "-")
 
 
@@ -240,7 +241,9 @@ def parse_out(out):
 W_ORPHAN = "udp.sim 3 300 6e20f46e101a77006e215077006c01c477017202087430741274306e10b70000"
 W_GENMISMATCH = "udp.sim 3 300 6e106777007700770074307200cf6e107d77006c012e72010b743074117701743072009e72015a77007700743065017201dd65016c019f743077010000"
 W_FUZZ_IMPATIENT = "udp.sim 7 300 6e106177007430720173741177017200c9770072018a6e10c0741177007201d777016c000b0000"
-WITNESSES = [W_ORPHAN, W_GENMISMATCH, W_FUZZ_IMPATIENT]
+W_INV_SENDQ = "udp.sim 2 3000 6ef138770174016e91e06ee13c7701720f00741f650f7401770f770172010065010000"
+W_OBSGEN = "udp.sim 3 3000 6e100b770072016d6e1083741177017200e96e108b6e103877006e104064011d770077006401b477006401fa770077006401d26e10207700770077006e10386401a964011f77006e103c6401e877007700770064015477006401227700770064015a6401287700770064010f64015d6e10186401516e10387700770077006401a16401f9770074306401c8770064018b6e102077007430770064015772007f6e10400000"
+WITNESSES = [W_ORPHAN, W_GENMISMATCH, W_FUZZ_IMPATIENT, W_INV_SENDQ, W_OBSGEN]
 
 
 # ---------------------------------------------------------------------------------------------
@@ -424,13 +427,13 @@ def run(c):
 
     # ---------------- case lines
     lines = []
+    replay_win = []
     if c.replay:
-        for f in c.replay.get("failures", []):
-            if f.get("input"):
-                lines.append(f["input"])
-        for t in c.replay.get("broken_ties", []):
-            if t.get("line", "").startswith("udp.sim"):
-                lines.append(t["line"])
+        for l in [f.get("input") for f in c.replay.get("failures", [])] + [t.get("line") for t in c.replay.get("broken_ties", [])]:
+            if l and l.startswith("udp.sim"):
+                lines.append(l)
+            elif l and (l.startswith("udp.rcv") or l.startswith("udp.snd")):
+                replay_win.append(l)
     lines += WITNESSES
     # exhaustive over a small alphabet on two transports (loss/dup/timers before the repair phase)
     alpha = [cmd_n(0, 1, 8), cmd_n(0, 1, 72), cmd_w(0), cmd_w(1), cmd_r(1, 0), cmd_r(0, 0), cmd_e(1), cmd_e(0),
@@ -452,7 +455,7 @@ def run(c):
             for fl in (2, 0):
                 lines.append(sim_line(fl, base + a + b + cmd_w(0) + cmd_r(1, 0) + a + b"\0\0"))
     # random command strings
-    nrand = 60000 if c.thorough else 2500
+    nrand = 20000 if c.thorough else 2500
     profiles = sorted(PROFILES)
     for i in range(nrand):
         r = rng.below(100)
@@ -531,7 +534,9 @@ def run(c):
         # the property's oracle on the implementation's trace
         what, sig = None, None
         if status == "panic":
-            what = "panic inside the transport/simulator (invariant check or runtime panic)"
+            what = "panic inside the transport/simulator (invariant check or runtime panic; class %s)" % d.get("panic")
+            if d.get("panic") == "notacked-nosend-insendq":
+                sig = W_INV_SENDQ
         elif mk[0] == "rej":
             reason = mk[2] if len(mk) > 2 else "?"
             what = "event trace rejected at event %s: %s" % (mk[1] if len(mk) > 1 else "?", reason)
@@ -543,8 +548,10 @@ def run(c):
             what = "network repaired but the protocol makes no progress (%s)" % d.get("stuck")
             if restarts and d.get("orphan", "0") not in ("0",):
                 sig = W_ORPHAN
-            elif restarts and d.get("stuck") == "genmismatch":
+            elif restarts and d.get("stuck") in ("genmismatch", "stalemem"):
                 sig = W_GENMISMATCH
+            elif restarts and d.get("stuck") == "obsgen":
+                sig = W_OBSGEN
         elif status == "steps":
             what = "network repaired but not quiescent after the step bound"
         if what is None and d.get("outlive", "0") != "0":
@@ -568,7 +575,8 @@ def run(c):
             c.oracle_fail(l, what, l)
         elif sig is not None and sig in witness_fail:
             c.count("attributed-to-known-finding:" + {W_ORPHAN: "orphan-memory", W_GENMISMATCH: "stale-peer-deadlock",
-                                                       W_FUZZ_IMPATIENT: "fuzz-impatience"}[sig])
+                                                       W_FUZZ_IMPATIENT: "fuzz-impatience", W_INV_SENDQ: "simulator-invariant-sendq",
+                                                       W_OBSGEN: "simulator-obsolete-generation-status"}[sig])
         else:
             new.append((l, what))
     new.sort(key=lambda x: len(x[0]))
@@ -580,7 +588,7 @@ def run(c):
         c.oracle_fail(l, what, l)
 
     # ---------------- window model: differential tie against one real Incoming/OutgoingConnection
-    wl = []
+    wl = list(replay_win)
     import itertools
     for spec, nseq in (("2.1,1", 3), ("1,3.2", 4), ("5.5.5.5", 4)):
         for k in range(0, 6 if c.thorough else 5):
@@ -590,7 +598,7 @@ def run(c):
     for k in range(1, 5 if c.thorough else 4):
         for tup in itertools.product(sops, repeat=k):
             wl.append("udp.snd " + ",".join(("m3",) + tup))
-    for _ in range(30000 if c.thorough else 2000):
+    for _ in range(10000 if c.thorough else 2000):
         wl.append(gen_rcv(rng, rng.chance(1, 2)))
         wl.append(gen_snd(rng, rng.chance(1, 2)))
     wl = list(dict.fromkeys(wl))
